@@ -96,6 +96,40 @@ class Ops:
                 self.ctx.datatypes[key] = ElemType(sort, "rec", rec=desc, accessors=accessors,
                                                    constructor=sort.mk)
             return self.ctx.datatypes[key]
+        if isinstance(desc, dsl.TupleOf):
+            key = f"tuple:{desc!r}"
+            if key not in self.ctx.datatypes:
+                dt = z3.Datatype(f"Tup_{len(self.ctx.datatypes)}")
+                ets = [self.elem_type(e) for e in desc.elems]
+                dt.declare("mk", *[(f"_{i}", et.sort) for i, et in enumerate(ets)])
+                sort = dt.create()
+                self.ctx.datatypes[key] = ElemType(sort, "tuple", rec=desc, constructor=sort.mk,
+                                                   accessors={i: (getattr(sort, f"_{i}"), et) for i, et in enumerate(ets)})
+            return self.ctx.datatypes[key]
+        if isinstance(desc, dsl.Union):
+            key = f"union:{desc!r}"
+            if key not in self.ctx.datatypes:
+                dt = z3.Datatype(f"Union_{len(self.ctx.datatypes)}")
+                ets = [self.elem_type(a) for a in desc.alts]
+                for i, et in enumerate(ets):
+                    dt.declare(f"alt{i}", (f"payload{i}", et.sort))
+                sort = dt.create()
+                self.ctx.datatypes[key] = ElemType(sort, "union", rec=desc, accessors={
+                    i: (getattr(sort, f"alt{i}"), getattr(sort, f"is_alt{i}"), getattr(sort, f"payload{i}"), et)
+                    for i, et in enumerate(ets)})
+            return self.ctx.datatypes[key]
+        if isinstance(desc, dsl.ListOf) and desc.lo == desc.hi:
+            key = f"fixedlist:{desc!r}"
+            if key not in self.ctx.datatypes:
+                dt = z3.Datatype(f"Fixed_{len(self.ctx.datatypes)}")
+                et = self.elem_type(desc.elem)
+                dt.declare("mk", *[(f"_{i}", et.sort) for i in range(desc.lo)])
+                sort = dt.create()
+                self.ctx.datatypes[key] = ElemType(sort, "fixedlist", rec=desc, constructor=sort.mk,
+                                                   accessors={i: (getattr(sort, f"_{i}"), et) for i in range(desc.lo)})
+            return self.ctx.datatypes[key]
+        if isinstance(desc, dsl.Const):
+            return ElemType(z3.BoolSort(), "const", rec=desc)
         if isinstance(desc, dsl.Ref):
             key = f"ref:{desc.cls}"
             if key not in self.ctx.datatypes:
@@ -115,6 +149,19 @@ class Ops:
         raise Unsupported(f"no element encoding for {desc!r}")
 
     def unpack(self, term: Any, et: ElemType) -> V:
+        if et.kind == "tuple":
+            return TupleV([self.unpack(acc(term), sub) for _, (acc, sub) in sorted(et.accessors.items())])
+        if et.kind == "fixedlist":
+            return ListV([self.unpack(acc(term), sub) for _, (acc, sub) in sorted(et.accessors.items())])
+        if et.kind == "const":
+            return self.from_python(et.rec.value)
+        if et.kind == "union":
+            last = max(et.accessors)
+            for i, (_mk, is_alt, payload, sub) in sorted(et.accessors.items()):
+                if i == last or self.ctx.branch(is_alt(term)):
+                    if i == last:
+                        self.ctx.assume(is_alt(term))
+                    return self.unpack(payload(term), sub)
         if et.kind == "ref":
             return RefV(term, et.rec)
         if et.kind == "dict":
@@ -134,6 +181,21 @@ class Ops:
         return mk(term)
 
     def pack(self, value: V, et: ElemType) -> Any:
+        if et.kind == "tuple":
+            if not isinstance(value, (TupleV, ListV)) or len(value.items) != len(et.accessors):
+                raise Unsupported(f"expected {len(et.accessors)}-tuple element, got {value!r}")
+            return et.constructor(*[self.pack(v, et.accessors[i][1]) for i, v in enumerate(value.items)])
+        if et.kind == "fixedlist":
+            if not isinstance(value, (TupleV, ListV)) or len(value.items) != len(et.accessors):
+                raise Unsupported(f"expected list of {len(et.accessors)} elements, got {value!r}")
+            return et.constructor(*[self.pack(v, et.accessors[i][1]) for i, v in enumerate(value.items)])
+        if et.kind == "const":
+            return z3.BoolVal(True)
+        if et.kind == "union":
+            for i, (mk_alt, _is, _payload, sub) in sorted(et.accessors.items()):
+                if isinstance(value, ObjV) and sub.kind == "rec" and sub.rec.cls == value.cls:
+                    return mk_alt(self.pack(value, sub))
+            raise Unsupported(f"value {value!r} matches no alternative of {et.rec!r}")
         if et.kind == "ref":
             if not isinstance(value, RefV):
                 if getattr(et.rec, "abstract", False):
